@@ -18,10 +18,10 @@ egvars == <<vars, evars, hist, finished, kind>>
 
 EGenInit == EInit /\ hist = <<>> /\ finished = FALSE /\ kind = ""
 
-ConnInfo(cs) == {[id |-> c.id, a |-> oaddr[c.o], how |-> IF all[oaddr[c.o]] = c.o THEN "stored" ELSE "displaced"] : c \in cs}
+ConnInfo(cs) == {[id |-> c.id, a |-> oaddr[c.o], st |-> c.st, how |-> IF all[oaddr[c.o]] = c.o THEN "stored" ELSE "displaced"] : c \in cs}
 Ids(cs) == {c.id : c \in cs}
 AddrsOf(os) == {oaddr'[o] : o \in os}
-OpenAfter == {[id |-> c.id, a |-> oaddr'[c.o]] : c \in econns'}
+OpenAfter == {[id |-> c.id, a |-> oaddr'[c.o], st |-> c.st] : c \in econns'}
 Members2 == [a \in Addrs |-> IF all'[a] = NoObj THEN "none" ELSE otype'[all'[a]]]
 
 EStep(rec) == hist' = Append(hist, rec @@ [obs |-> Obs', open |-> OpenAfter, members |-> Members2,
@@ -36,10 +36,11 @@ KindEnabled(k) ==
     [] k = "conn"   -> nconn < MaxConns
     [] k = "round"  -> snap # {} /\ nround < MaxRounds
     [] k = "toggle" -> ntog < MaxToggles
+    [] k = "half"   -> nhalf < MaxHalf /\ \E c \in econns : c.st = "open"
 
 ChooseKind ==
   /\ ~finished /\ kind = "" /\ Len(hist) < TargetLen
-  /\ \E k \in {"op", "conn", "round", "toggle"} : KindEnabled(k) /\ kind' = k
+  /\ \E k \in {"op", "conn", "round", "toggle", "half"} : KindEnabled(k) /\ kind' = k
   /\ UNCHANGED <<vars, evars, hist, finished>>
 
 EGenNext ==
@@ -49,21 +50,23 @@ EGenNext ==
           /\ kind = "op"
           /\ EAdd(a, t)
           /\ EStep([op |-> "Add", a |-> a, t |-> t, f |-> NoF, win |-> AddWin(NoObj, a, t, TRUE),
-                    must |-> ConnInfo(elast'.must), closed |-> Ids(elast'.closed)])
+                    must |-> ConnInfo(elast'.must), closed |-> Ids(elast'.closed), closedInfo |-> ConnInfo(elast'.closed)])
      \/ \E a \in Addrs, t \in Types :
           /\ kind = "op"
           /\ ERemove(a, t)
           /\ EStep([op |-> "Remove", a |-> a, t |-> t, f |-> NoF, win |-> RemoveWin(a, t, NoObj),
-                    must |-> ConnInfo(elast'.must), closed |-> Ids(elast'.closed)])
+                    must |-> ConnInfo(elast'.must), closed |-> Ids(elast'.closed), closedInfo |-> ConnInfo(elast'.closed)])
      \/ \E f \in ReplaceArgs :
           /\ kind = "op" /\ (\E a \in Addrs : f[a] # "none")
           /\ EReplace(f)
           /\ EStep([op |-> "ReplaceAll", a |-> 0, t |-> "", f |-> f, win |-> {"replace-all"},
-                    must |-> ConnInfo(elast'.must), closed |-> Ids(elast'.closed)])
+                    must |-> ConnInfo(elast'.must), closed |-> Ids(elast'.closed), closedInfo |-> ConnInfo(elast'.closed)])
      \/ \E a \in Addrs : kind = "toggle" /\ Toggle(a) /\ EStep([op |-> "Toggle", a |-> a, win |-> {}])
      \/ kind = "round" /\ Round /\ EStep([op |-> "Round", win |-> IF StaleMarked = {} THEN {} ELSE {"stale-object-mark"},
                         stale |-> {oaddr[o] : o \in StaleMarked}, probed |-> {oaddr[o] : o \in snap},
                         closed |-> Ids(elast'.closed)])
+     \/ \E c \in econns, side \in {"chc", "bhc"} :
+          kind = "half" /\ HalfClose(c, side) /\ EStep([op |-> "HalfClose", id |-> c.id, side |-> side, a |-> oaddr[c.o], win |-> {}])
      \/ kind = "conn" /\ Conn /\ EStep([op |-> "Conn", id |-> elast'.id, win |-> {},
                        chosen |-> IF elast'.chosen = NoObj THEN 0 ELSE oaddr[elast'.chosen],
                        chosenObj |-> elast'.chosen, est |-> elast'.est,
@@ -84,6 +87,15 @@ TrapLatch == ~(elast.kind = "op" /\ elast.must # {}) \/ Trapped
 \* a connection arrives after a round delivered a mark with a replaced / removed object
 TrapStaleMark ==
   ~(elast.kind = "conn" /\ \E i \in 1..Len(hist) : hist[i].op = "Round" /\ hist[i].stale # {}) \/ Trapped
+
+\* mandatory strata: every transition that removes the host of an established relay (or removes
+\* an address after an Add displaced the object a relay was established through) is printed with
+\* its path; the check takes the shortest path per (half-close state, operation, stored/displaced)
+StratumHit ==
+  /\ elast'.kind = "op"
+  /\ \/ elast'.must # {}
+     \/ Leaving # {} /\ \E i \in 1..Len(hist) : hist[i].op = "Add" /\ hist[i].closedInfo # {}
+StrataEmit == StratumHit => PrintT("@@STRATUM " \o ToJson(hist'))
 
 EGenSpec == EGenInit /\ [][ChooseKind \/ EGenNext \/ EFinish]_egvars
 =============================================================================
